@@ -31,7 +31,10 @@ static void run_case(const Case &c) {
         A.p.session.sequence = c.seq;
         bool write = c.entry >= 2, w16 = c.entry & 1;
         expected = rp::make_request(c.serial, write, w16, c.seq, c.addr, c.n, c.payload);
-        vp::Block pl(c.payload.size() ? c.payload.size() : 2);
+        // octet payloads may sit at any address: odd sequence numbers put them one octet into an exact-size block
+        size_t shift = (c.entry == 2 && (c.seq & 1)) ? 1 : 0;
+        vp::Block plb((c.payload.size() ? c.payload.size() : 2) + shift);
+        struct { uint8_t *p; } pl = {plb.p + shift};
         if (!c.payload.empty()) memcpy(pl.p, c.payload.data(), c.payload.size());
         switch (c.entry) {
         case 0: rc = regp_req_read8(&A.p, c.addr, c.n); break;
@@ -54,7 +57,9 @@ static void run_case(const Case &c) {
         A.take_output();
         arm_sink();
         int code = c.entry - 4;
-        vp::Block pl(c.payload.size() ? c.payload.size() : 2);
+        size_t shift = (!c.mem16 && (c.seq & 1)) ? 1 : 0;
+        vp::Block plb((c.payload.size() ? c.payload.size() : 2) + shift);
+        struct { uint8_t *p; } pl = {plb.p + shift};
         if (!c.payload.empty()) memcpy(pl.p, c.payload.data(), c.payload.size());
         size_t words = c.mem16 ? c.payload.size() / 2 : c.payload.size();
         switch (code) {
@@ -107,7 +112,7 @@ static void run() {
     auto &a = vp::args();
     vp::CaseScope scope([] { return ser_case(g_cur); });
     vp::stats().rule = "enum/random: all 18 emit entry points (4 requests, ACK with/without payload, 11 error responses, 2 meta) x {serial, tcp} x {8, 16}-bit memory x request kinds, with addresses and "
-                       "sequence numbers at the edges, payloads rich in SLIP control octets, sinks that take whole calls / one octet per call / short writes mixed with EINTR, a SLIP control octet behind every run length 0..300 of ordinary payload octets, total lengths across the varint boundaries 127/128 and 16383/16384 and payloads across 2^16 and 2^17 octets; oracle = reference encoder octets + "
+                       "sequence numbers at the edges, payloads rich in SLIP control octets (octet payloads at even and odd addresses), sinks that take whole calls / one octet per call / short writes mixed with EINTR, a SLIP control octet behind every run length 0..300 of ordinary payload octets, total lengths across the varint boundaries 127/128 and 16383/16384 and payloads across 2^16 and 2^17 octets; oracle = reference encoder octets + "
                        "the library's own receiver reports the same fields; request sequence numbers increase by one modulo 2^16 (session of 70000 requests)";
     vp::stats().exhaustive = false;
     vp::Rng rng(a.seed * 15013 + a.shard);
